@@ -6,7 +6,8 @@ from .C02 import C02
 class C05(C02):
     id = 'C05'
     module = 'Cbor.Props.C05'
-    theorems = ['Props.C05.C05_code_pos', 'Props.C05.C05_fields_written', 'Props.C05.C05_empty', 'Props.C05.C05_prefix',
+    extra_modules = ['Cbor.Props.HeapLoad']
+    theorems = ['Props.HeapLoad.failed_load_clean', 'HB.hload_refines', 'Props.C05.C05_code_pos', 'Props.C05.C05_fields_written', 'Props.C05.C05_empty', 'Props.C05.C05_prefix',
                 'Lemmas.Refine.load_eq', 'Lemmas.Local.run_trunc', 'Lemmas.Fund.abs_decode_eq']
     rule = ('inputs outside the accepted language: every proper prefix of every enumerated well-formed item, every single-edit corruption, all '
             'strings of length <= 2, random; result struct pre-filled with a sentinel; eager and lazy reporting inside chunked strings both '
